@@ -154,16 +154,22 @@ def run(tier):
     chk.extra["calls_ok"] = okc
     chk.extra["calls_failed"] = failc
     chk.extra["history_stats"] = stats
+    # vacuity guards (a run that already reports violations is not additionally turned into a tool error:
+    # histories end at the first divergence, so a broken blob legitimately shortens the run)
+    vac = []
     need = {"insert": 100, "upsert": 50, "delete": 50, "batch": 30, "calc": 20, "reload": 20}
     for k, n in need.items():
         if okc.get(k, 0) < n:
-            raise ToolError("C18 vacuity guard: only %d successful %s calls" % (okc.get(k, 0), k))
+            vac.append("only %d successful %s calls" % (okc.get(k, 0), k))
     for k in ("insert", "upsert", "delete"):
         if failc.get(k, 0) < 20:
-            raise ToolError("C18 vacuity guard: only %d failing %s calls" % (failc.get(k, 0), k))
+            vac.append("only %d failing %s calls" % (failc.get(k, 0), k))
     for k in ("delete_to_0", "delete_to_1", "delete_to_2", "free_index_reuse", "batch_ok_on_0", "batch_ok_on_1", "batch_ok_on_2", "batch_ok_on_n", "auto_inserts", "dirty_trees", "proofs_checked"):
         if stats[k] < 5:
-            raise ToolError("C18 vacuity guard: %s = %d" % (k, stats[k]))
+            vac.append("%s = %d" % (k, stats[k]))
+    chk.extra["vacuity_guard"] = vac or "passed"
+    if vac and not chk.violations:
+        raise ToolError("C18 vacuity guard: " + "; ".join(vac))
     chk.rule = ("M: MC_MerkleBlob (%s) checks RefinesMap, Integrity, clean-hash correctness, FailedIsStutter, ReloadEquivalent, RootHashDef and ProofsValid on every state "
                 "reachable by insert(any location)/upsert/delete/batch_insert/calculate_lazy_hashes/reload over the stated key and hash menus; "
                 "R: one history per distinct (state, last call) is replayed on a real MerkleBlob; T: seeded random histories (20 keys / 12 hashes, and a large key space); "
